@@ -486,3 +486,81 @@ func factsString(fs []Fact) string {
 	}
 	return strings.Join(ss, " && ")
 }
+
+// GuardsAtStmt returns the facts that hold when statement st starts executing,
+// for statements go/cfg does not record as nodes (break, continue, goto):
+// the facts of the previous sibling in the same statement list, plus the
+// negated condition of every earlier sibling `if c { ...; <leaves> }` whose
+// body cannot fall through.
+func (f *FCFG) GuardsAtStmt(root ast.Node, st ast.Stmt) []Fact {
+	if _, ok := f.Locate(st); ok {
+		return f.GuardsOf(st)
+	}
+	var list []ast.Stmt
+	idx := -1
+	ast.Inspect(root, func(n ast.Node) bool {
+		var l []ast.Stmt
+		switch y := n.(type) {
+		case *ast.BlockStmt:
+			l = y.List
+		case *ast.CaseClause:
+			l = y.Body
+		case *ast.CommClause:
+			l = y.Body
+		}
+		for i, s := range l {
+			if s == st {
+				list, idx = l, i
+			}
+		}
+		return idx < 0
+	})
+	if idx <= 0 {
+		return nil
+	}
+	leaves := func(b *ast.BlockStmt) bool {
+		if b == nil || len(b.List) == 0 {
+			return false
+		}
+		switch y := b.List[len(b.List)-1].(type) {
+		case *ast.ReturnStmt:
+			return true
+		case *ast.BranchStmt:
+			return y.Tok != token.FALLTHROUGH
+		case *ast.ExprStmt:
+			if c, ok := y.X.(*ast.CallExpr); ok {
+				if id, ok := c.Fun.(*ast.Ident); ok && id.Name == "panic" {
+					return true
+				}
+			}
+		}
+		return false
+	}
+	var raw []Fact
+	// locate the nearest earlier sibling that has a CFG location
+	for k := idx - 1; k >= 0; k-- {
+		var anchor ast.Node
+		ast.Inspect(list[k], func(n ast.Node) bool {
+			if anchor != nil || n == nil {
+				return false
+			}
+			if _, ok := f.Locate(n); ok {
+				anchor = n
+				return false
+			}
+			return true
+		})
+		if anchor != nil {
+			if l, ok := f.Locate(anchor); ok {
+				raw = append(raw, f.guardsOfLoc(l)...)
+			}
+			break
+		}
+	}
+	for k := 0; k < idx; k++ {
+		if is, ok := list[k].(*ast.IfStmt); ok && is.Else == nil && leaves(is.Body) {
+			splitCond(is.Cond, false, &raw)
+		}
+	}
+	return factVariants(f.expandOperandLocals(f.expandBoolLocals(raw)))
+}
